@@ -967,7 +967,9 @@ def predicate_fock(spec, out, rec=None):
         rest = tuple(m for m in range(n) if m not in modes)
         marg = P.sum(axis=rest) if rest else P
         marg = marg.ravel()
-        if not close(marg / marg.sum(), rec["p"], 1e-6):  # the code zeroes entries below 1e-8 before normalising
+        # the code zeroes entries below 1e-8 (absolute) before normalising: on a heavily truncated state (trace << 1)
+        # that clipping is worth up to 1e-8/trace per entry after normalisation (false alarm of thorough seed 3, trace 0.0035)
+        if not close(marg / marg.sum(), rec["p"], max(1e-6, 4e-8 / max(marg.sum(), 1e-300))):
             return "born-distribution"
         if list(rec["a"]) != list(range(len(marg))):
             return "choice-support"
